@@ -286,8 +286,8 @@ func (r *vfC02MuxRun) body(addCloser func(func())) {
 				c.done = true
 				cls := "mux-truncated-eof"
 				if n > 0 {
-					// (bytes and io.EOF in one call: go-yamux hands the error of its window update - the session's
-					// terminating error, a bare io.EOF when the connection ended with EOF - out with the data)
+					// bytes and a clean end in one call on a stream that is not complete (the wrapper must deliver the
+					// bytes and leave the stream's terminal state to the next Read; fixed in /repo 1de879a)
 					cls = "mux-truncated-eof-with-data"
 				}
 				r.mismatch(si, cls, fmt.Sprintf("%s: the stream ended CLEANLY (io.EOF) after %d bytes although %d were written (CloseWrite issued: %v): the reader cannot tell it from a complete one", c.name, c.led.Delivered, c.led.Written, c.closed), "error, or EOF after everything", "io.EOF")
